@@ -518,6 +518,10 @@ def run(ck: Checker) -> None:
                        "compensation calls inside except handlers do not fail themselves"]
     ck.guard("R-LEG-ROLLBACK", lambda: r_rollback(ck))
     ck.guard("R-LEG-ROLLBACK", lambda: r_blanket_release(ck))
+    from .c18 import r_leg_eq_search
+    ck.guard("R-LEG-ROLLBACK", lambda: r_leg_eq_search(ck, "R-LEG-ROLLBACK"))  # the position restored after a rejection is the recorded one
+    from . import state_rules as S_
+    ck.guard("R-LEG-PRECHECK", lambda: S_.r_class_attr_cache(ck, "R-LEG-PRECHECK", (LNODE,)))  # what a class may replace is asked of that class, not of the first class that was asked
     ck.guard("R-LEG-PRECHECK", lambda: r_prechecks(ck))
     ck.guard("R-LEG-CLONE", lambda: r_clone(ck))
     ck.guard("R-LEG-CLONE", lambda: r_clone_collections(ck))
